@@ -266,8 +266,10 @@ func runC13(r *rt.Run) {
 	th := r.Thorough()
 	type ctr struct{ lon, lat float64 }
 	centres := []ctr{{0, 0}, {-112, 33}, {179.9999, 10}, {-180, -45}, {10, 89.999}, {0, 90}, {45, -90}}
-	radii := []float64{0, 1e-3, 0.5, 1, 10, 1e3, 1e5, 1e6, 5e6, 1e7, piR - 1, piR}
+	radii := []float64{0, 1e-3, 0.01, 0.05, 0.1, 0.5, 1, 10, 1e3, 1e5, 1e6, 5e6, 1e7, piR - 1, piR}
 	factors := []float64{0, .5, 1 - 1e-4, 1 - 3e-8, 1 + 3e-8, 1 + 1e-4, 1.5}
+	// absolute offsets from the radius just outside the 1 mm band (sub-metre radii)
+	offsets := []float64{-0.0015, 0.0015, -0.004, 0.004}
 	bstep := 15.0
 	if th {
 		bstep = 3
@@ -277,6 +279,7 @@ func runC13(r *rt.Run) {
 	r.Bounds["centres"] = len(centres)
 	r.Bounds["radii"] = radii
 	r.Bounds["distance_factors"] = factors
+	r.Bounds["absolute_offsets_m"] = offsets
 	r.Bounds["bearing_step_deg"] = bstep
 	r.Bounds["step_counts"] = "-1..4096"
 	r.Rule = "full product centres x radii x bearings x distance factors (probe = reference destination point) as Point and SimplePoint, both operand orders, contains and intersects; monotonicity along the radius alphabet; circle-circle over the same grid x radius alphabet; serialisation / polygon for radii incl. negative, NaN, Inf, 3piR and every step count -1..4096; non-trivial = probe outside the tolerance band"
@@ -304,6 +307,14 @@ func runC13(r *rt.Run) {
 					for _, rb := range radii {
 						geoRun(w, "circle-circle", c.lat, c.lon, rr, pl, po, rb)
 					}
+				}
+			}
+			for _, off := range offsets {
+				if d := rr + off; d >= 0 && d <= piR && 1e-8*rr < 1e-3 {
+					pl, po := sphere.Dest(c.lat, c.lon, d, b)
+					w.Trans++
+					w.Nontriv++
+					geoRun(w, "circle-point", c.lat, c.lon, rr, pl, po)
 				}
 			}
 		}
